@@ -1,8 +1,19 @@
 #!/bin/bash
-# offline setup: nothing to download; checks compile from /repo on every run.
+# offline setup: nothing is downloaded; the checks compile the sources from /repo on every run.
+# This script only validates the environment models against the real thing (translator validation, DESIGN.md 2.3/2.5).
 set -e
 cd "$(dirname "$0")"
 mkdir -p build evidence replays
-for t in cbmc goto-cc goto-instrument gcc python3 kissat z3; do command -v $t >/dev/null || { echo "missing tool $t"; exit 1; }; done
+for t in cbmc goto-cc goto-instrument gcc python3 z3 cvc5; do command -v $t >/dev/null || { echo "missing tool $t"; exit 1; }; done
 python3 -c "import json; json.load(open('MANIFEST.json')); json.load(open('known_findings.json'))"
+# 1. ctype tables of the running libc (C locale) must be the ones the CBMC model uses
+gcc -o build/gen_ctype tools/gen_ctype.c && ./build/gen_ctype > build/ctype_tables.h
+if ! cmp -s build/ctype_tables.h harness/gen/ctype_tables.h; then echo "ctype tables differ from the committed ones: regenerating"; cp build/ctype_tables.h harness/gen/ctype_tables.h; fi
+# 2. AVX2 intrinsics model vs the hardware (skipped without AVX2)
+if gcc -O1 -mavx2 -o build/shim_difftest tools/shim_difftest.c 2>/dev/null; then ./build/shim_difftest || { echo "AVX2 model disagrees with the hardware"; exit 1; }; else echo "shim_difftest: compiler cannot build AVX2 code, skipped"; fi
+# 3. C07 oracle (bracket form) and the Hirschberg path contract against the real kernels with the real recursion: no alarm on any pair <= 4x4
+R=${VK_REPO:-/repo}
+gcc -O1 -w -DNOHAVE_AVX2 -I$R/lib/src -I$R/lib/include -Iharness/gen -o build/c07_native tools/c07_native.c $R/lib/src/aln_param.c $R/lib/src/aln_mem.c $R/lib/src/aln_setup.c \
+    $R/lib/src/aln_controller.c $R/lib/src/aln_seqseq.c $R/lib/src/aln_seqprofile.c $R/lib/src/aln_profileprofile.c $R/lib/src/tldevel.c -lm
+./build/c07_native 4 4 2>/dev/null | tail -1 || true
 echo "setup ok"
